@@ -42,7 +42,9 @@ namespace ratio
                         const arith_expr xpr = slv.is_impulse(*atm) ? atm->get(RATIO_AT) : atm->get(RATIO_START);
                         if ((*xpr).l.vars.empty())
                             throw execution_exception(); // we can't delay constants..
-                        const auto lb = slv.arith_value(xpr) + at_atm->second;
+                        // the delay counts from the current time when the planned time is already behind it (ticks are coarser than plan units): the atom must not be dispatched in this tick..
+                        const auto c_val = slv.arith_value(xpr);
+                        const auto lb = (c_val < inf_rational(current_time) ? inf_rational(current_time) : c_val) + at_atm->second;
                         auto [it, added] = adaptations.at(atm).bounds.emplace(&*xpr, nullptr);
                         if (added)
                         { // we have to add new bounds..
@@ -70,7 +72,9 @@ namespace ratio
                         const arith_expr xpr = slv.is_impulse(*atm) ? atm->get(RATIO_AT) : atm->get(RATIO_END);
                         if ((*xpr).l.vars.empty())
                             throw execution_exception(); // we can't delay constants
-                        const auto lb = slv.arith_value(xpr) + at_atm->second;
+                        // the delay counts from the current time when the planned time is already behind it (ticks are coarser than plan units): the atom must not be dispatched in this tick..
+                        const auto c_val = slv.arith_value(xpr);
+                        const auto lb = (c_val < inf_rational(current_time) ? inf_rational(current_time) : c_val) + at_atm->second;
                         auto [it, added] = adaptations.at(atm).bounds.emplace(&*xpr, nullptr);
                         if (added)
                         { // we have to add new bounds..
